@@ -934,6 +934,31 @@ def adoption_inner_loop(ctx):
 
 
 
+def _helper_excludes_annotation_xml(ctx, pc):
+    """a guard `self.<helper>()` found false counts as 'not an annotation-xml integration point' when every path on which that
+    helper answers false has itself found the annotation-xml name test or the sink's query false"""
+    for k, v in pc["guards"].items():
+        m = re.fullmatch(r"self\.(\w+)\(\)", re.sub(r"#\d+$", "", k))
+        if not m or v is not False:
+            continue
+        try:
+            key, hp = nfq.cells(ctx, TB, "TreeBuilder<Handle,Sink>::" + m.group(1))
+        except Exception:  # noqa
+            continue
+        neg = [h for h in nfq.feasible(hp) if str(h["ret"]) == "false"]
+        pos = [h for h in nfq.feasible(hp) if str(h["ret"]) != "false"]
+
+        def excl(h):
+            t = " ".join(g for g, gv in h["guards"].items() if gv is False)
+            return "is_mathml_annotation_xml_integration_point" in t or "annotation-xml" in t
+        if neg and all(excl(h) for h in neg):
+            return True
+        # the helper's answer may also BE the sink's answer (`name test && sink query`): then its non-false paths return the query
+        if pos and all("is_mathml_annotation_xml_integration_point" in str(h["ret"]) for h in pos) and all(excl(h) for h in neg):
+            return True
+    return False
+
+
 def foreign_breakout(ctx):
     """a breakout start tag in foreign content ('pop ... until the current node is a MathML text integration point, an HTML
     integration point, or an element in the HTML namespace'): a pop happens only after all four stop conditions were found
@@ -954,7 +979,7 @@ def foreign_breakout(ctx):
             for tok, what in need:
                 if tok not in false_text:
                     bad = bad or "an element is popped without having established that the current node is not %s" % what
-            if "is_mathml_annotation_xml_integration_point" not in false_text and "annotation-xml" not in false_text:
+            if "is_mathml_annotation_xml_integration_point" not in false_text and "annotation-xml" not in false_text and not _helper_excludes_annotation_xml(ctx, pc):
                 bad = bad or ("an element is popped without having established that the current node is not a MathML annotation-xml HTML integration point "
                               "(encoding text/html or application/xhtml+xml): '<math><annotation-xml encoding=text/html><svg><b>' pops the annotation-xml and the math element")
         if _loop_exit(pc) == "break" or str(pc["ret"]).startswith("self.step("):
